@@ -244,7 +244,12 @@ theorem C08_contradiction_bucket (blocks : List Block) (r : Req)
   unfold bucketSeries
   rw [List.flatMap_eq_nil_iff]
   intro b hb
-  exact C08_contradiction_block _ b r (h b (List.mem_filter.mp hb).1)
+  have hb' : b ∈ blocks := by
+    unfold selected at hb
+    split at hb
+    · simp at hb
+    · exact (List.mem_filter.mp hb).1
+  exact C08_contradiction_block _ b r (h b hb')
 
 /-- every series the specification serves is the completion of a stored series -/
 theorem C08_series_from_store_tsdb (db : Block) (r : Req) (es : List Entry) (h : tsdbSeries db r = .ok es) :
@@ -271,7 +276,12 @@ theorem C08_series_from_store_bucket (blocks : List Block) (r : Req) :
   intro e he
   unfold bucketSeries at he
   obtain ⟨b, hb, heb⟩ := List.mem_flatMap.mp he
-  refine ⟨b, (List.mem_filter.mp hb).1, ?_⟩
+  have hb' : b ∈ blocks := by
+    unfold selected at hb
+    split at hb
+    · simp at hb
+    · exact (List.mem_filter.mp hb).1
+  refine ⟨b, hb', ?_⟩
   unfold blockSeries at heb
   split at heb
   · simp at heb
